@@ -538,3 +538,4 @@ V("C16", "gitmodules-valueless-key", "F", "R1", R + "vcs.py", '            Path(
 for _p in ("C08", "C10"):
     V(_p, "block-end-needs-bare-delimiter", "F", "R4", R + "comment.py", "                if line.rstrip().endswith(cls.MULTI_LINE.end):\n", "                if line.endswith(cls.MULTI_LINE.end):\n")
 V("C20", "notice-test-unanchored", "F", "R2", CPP, "        match = pattern.match(statement)\n", "        match = pattern.search(statement)\n")
+V("C02", "end-pattern-without-trailing-blanks", "F", "R1", EXP, '_END_PATTERN = r"{}[ \\t]*$".format(', '_END_PATTERN = r"{}$".format(')
